@@ -13,7 +13,8 @@
 (*   Ev    {etype, step}                       observer saw the event            *)
 (*   Call  {labels: [[b, r, p]], fixedids: [[id ...] per fixed variable],        *)
 (*          nanrow: [bool per row]}            the user evaluator was called     *)
-(*   Res   {items: [[id, kind, hasfun, obj, nan, feas, failed: [bool per r]]]}   *)
+(*   Res   {items: [[id, kind, hasfun, obj, nan, feas, failed: [bool per r]]],   *)
+(*          aligned: results / transformed_results pair up item by item}         *)
 (*          data of the FINISHED_EVALUATION just seen                            *)
 (*   Exit  {step, code}                        run_step returned                 *)
 (*   Best  {kept}                              what the tracker / BasicOptimizer holds *)
@@ -74,7 +75,8 @@ Step(e) ==
          LET F == {i \in 1..Len(e.items) : e.items[i].kind = "F"}
              fails == \E i \in 1..Len(e.items) : ~e.items[i].hasfun
              bidx(i) == Cardinality({j \in F : j <= i})
-         IN /\ verdict' = IF \E i \in 1..Len(e.items) : e.items[i].meta # cfg.meta THEN "metadata_not_attached_to_results"
+         IN /\ verdict' = IF ~e.aligned THEN "results_and_transformed_results_do_not_correspond"
+                          ELSE IF \E i \in 1..Len(e.items) : e.items[i].meta # cfg.meta THEN "metadata_not_attached_to_results"
                           ELSE IF \E i \in F : ~FlagsOK(lastcall, e.items[i], bidx(i)) THEN "failed_flags_not_the_nan_rows"
                           ELSE IF \E i \in F : e.items[i].hasfun /\ Cardinality({r \in 1..cfg.R : ~e.items[i].failed[r]}) < cfg.minsucc
                                THEN "functions_reported_below_min_success"
